@@ -112,6 +112,9 @@ def run_cases(chk, fam, cases, label='', peers=None):
                 | {'failBag': sorted(by_id[p]['rep']['failIds']),
                    'errBag': sorted(by_id[p]['rep']['errIds']),
                    'hasLists': by_id[p]['o']['verbose'] > 0,
+                   'isList': by_id[p]['o']['list'],
+                   'listing': by_id[p]['rep']['listing'],
+                   'execPairs': exec_pairs(by_id[p]['ev']),
                    'layerFaults': len([e for e in by_id[p]['ev']
                                        if (e['e'] == 'SUE' and e['s'] != 'ok')
                                        or (e['e'] == 'TDE' and e['s'] == 'raise')]),
@@ -141,6 +144,15 @@ def run_cases(chk, fam, cases, label='', peers=None):
                            'stdout_tail': res[c['id']].get('stdout', '')[-2000:],
                            'stderr_tail': res[c['id']].get('stderr', '')[-2000:]})
     return res, recs, verdicts
+
+
+def exec_pairs(ev):
+    """projection of a trace: the (test, iteration) pairs in start order"""
+    seen = []
+    for e in ev:
+        if e['e'] == 'T' and [e['t'], e['it']] not in seen:
+            seen.append([e['t'], e['it']])
+    return seen
 
 
 def needs_cli(world, o):
